@@ -1,0 +1,31 @@
+// Copyright (c) 2025 The Gnet Authors. All rights reserved.
+//
+// Licensed under the Apache License, Version 2.0 (the "License");
+// you may not use this file except in compliance with the License.
+// You may obtain a copy of the License at
+//
+//     http://www.apache.org/licenses/LICENSE-2.0
+//
+// Unless required by applicable law or agreed to in writing, software
+// distributed under the License is distributed on an "AS IS" BASIS,
+// WITHOUT WARRANTIES OR CONDITIONS OF ANY KIND, either express or implied.
+// See the License for the specific language governing permissions and
+// limitations under the License.
+
+//go:build darwin || dragonfly || freebsd || linux || netbsd || openbsd
+
+package netpoll
+
+import "github.com/panjf2000/gnet/v2/pkg/queue"
+
+// Drain takes every task that is still queued out of the poller and hands it to fn.
+// It is meant for the time after the owner of the poller has left Polling for good,
+// when nobody is going to run those tasks anymore. It is safe to call concurrently.
+func (p *Poller) Drain(fn func(task *queue.Task)) {
+	for _, q := range [2]queue.AsyncTaskQueue{p.urgentAsyncTaskQueue, p.asyncTaskQueue} {
+		for task := q.Dequeue(); task != nil; task = q.Dequeue() {
+			fn(task)
+			queue.PutTask(task)
+		}
+	}
+}
